@@ -183,6 +183,7 @@ def c01OK (t : Tables) (w : Wrapper) : Bool :=
   | none => false
   | some p =>
     p.args.isEmpty && (w.decTraced || !t.decodeOverridden) &&
+    t.params.all (fun prm => t.params.find? (fun q => q.1 == prm.1) == some prm && decide (prm.2.1 ≤ prm.2.2 + 1)) &&   -- field names are distinct
     t.params.all (fun prm =>
       match p.kwargs.find? (fun k => k.1 == prm.1) with
       | some k => safe [] k.2.2 && (!k.2.1 || staticW [] k.2.2 == some (prm.2.2 + 1 - prm.2.1))
